@@ -35,8 +35,8 @@ fn blob_program(s: &mut Src) -> Program {
 
 fn fixed_lengths(t: Tier) -> Vec<Case> {
     // every length 0..=N at four positions relative to the page boundary
-    let n = t.pick(1030, 4100);
-    let lead = t.pick(1, 4);
+    let n = t.pick(2050, 4100);
+    let lead = t.pick(2, 4);
     let mut out = Vec::new();
     for len in 0..=n as u32 {
         for l in 0..lead {
@@ -58,20 +58,20 @@ impl Check for C06 {
     fn rule() -> String {
         "Programs of blobs / images (all four representations, with and without mask) / point clouds in any number and order; blob lengths from \
          {0..5} u {k*1020 + d, d around header sizes} u random up to 5 pages, contents pseudo random with a distinct prefix per blob; plus an \
-         enumerated sweep of every blob length 0..=1030 (thorough: 0..=4100 at four positions relative to a page end). Oracle: E57Reader::blob returns \
+         enumerated sweep of every blob length 0..=2050 at two positions (thorough: 0..=4100 at four positions relative to a page end). Oracle: E57Reader::blob returns \
          Ok(len) and exactly the written bytes for every descriptor, each image's blob/mask descriptors lead to that image's data; for perturbed \
          descriptors Blob::new(offset, len') the result is Err or exactly len' bytes following the header. Non-trivial: blob spanning >= 2 pages, \
          or ending within 4 bytes of a page end, or length 0, or perturbed descriptor."
             .into()
     }
     fn budget(t: Tier) -> usize {
-        t.pick(3000, 50_000)
+        t.pick(40_000, 600_000)
     }
     fn fixed(t: Tier) -> Vec<Case> {
         fixed_lengths(t)
     }
     fn describe_fixed(t: Tier) -> Option<String> {
-        Some(format!("every blob length 0..={} x {} leading positions, each followed by another blob", t.pick(1030, 4100), t.pick(1, 4)))
+        Some(format!("every blob length 0..={} x {} leading positions, each followed by another blob", t.pick(2050, 4100), t.pick(2, 4)))
     }
     fn gen(s: &mut Src, _t: Tier) -> Case {
         let program = blob_program(s);
